@@ -215,6 +215,7 @@ func (ex *Exec) blobOf(sl Slice) *Blob {
 func initEnvStubs() {
 	initOsStubs()
 	initB64Stubs()
+	initUtf8Stubs()
 	reg := func(name string, f intrinsicFn) { namedIntrinsics[name] = f }
 	reg("github.com/fxamacker/cbor/v2.Marshal", func(ex *Exec, fn *ssa.Function, args []Value, caller *Frame) Value {
 		iv, ok := args[0].(Iface)
@@ -447,6 +448,109 @@ func (ex *Exec) snapshotStringsValid(v Value) *Term {
 	}
 	walk(v)
 	return ok
+}
+
+// --------------------------------------------------------------- rune count
+
+// runeCountBytes is the term "utf8.RuneCount of these bytes", built without
+// forking: start[i] says that Go's greedy decoder begins a rune at i, size at
+// i is the length of the valid encoding beginning there (1 for ASCII and for
+// every byte that does not begin a complete valid encoding), and the count is
+// the number of starts. The end of the segment counts as the end of the text.
+func (ex *Exec) runeCountBytes(bs []*Term) *Term {
+	ts := ex.ts
+	allConc := true
+	for _, b := range bs {
+		if !b.IsConst() {
+			allConc = false
+			break
+		}
+	}
+	if allConc {
+		buf := make([]byte, len(bs))
+		for i, b := range bs {
+			buf[i] = byte(b.K)
+		}
+		return ts.Const(64, uint64(utf8.RuneCount(buf)))
+	}
+	n := len(bs)
+	in := func(b *Term, lo, hi uint64) *Term {
+		return ts.And(ts.Ule(ts.Const(8, lo), b), ts.Ule(b, ts.Const(8, hi)))
+	}
+	cont := func(i int) *Term {
+		if i >= n {
+			return ts.False()
+		}
+		return in(bs[i], 0x80, 0xBF)
+	}
+	at := func(i int, lo, hi uint64) *Term {
+		if i >= n {
+			return ts.False()
+		}
+		return in(bs[i], lo, hi)
+	}
+	eq := func(b *Term, c uint64) *Term { return ts.Eq(b, ts.Const(8, c)) }
+	// is[k][i]: a valid k-byte encoding begins at i
+	is := [5][]*Term{}
+	for k := 2; k <= 4; k++ {
+		is[k] = make([]*Term, n)
+	}
+	for i := 0; i < n; i++ {
+		b := bs[i]
+		is[2][i] = ts.And(in(b, 0xC2, 0xDF), cont(i+1))
+		second3 := ts.Or(ts.And(eq(b, 0xE0), at(i+1, 0xA0, 0xBF)),
+			ts.Or(ts.And(ts.Or(in(b, 0xE1, 0xEC), in(b, 0xEE, 0xEF)), cont(i+1)),
+				ts.And(eq(b, 0xED), at(i+1, 0x80, 0x9F))))
+		is[3][i] = ts.And(second3, cont(i+2))
+		second4 := ts.Or(ts.And(eq(b, 0xF0), at(i+1, 0x90, 0xBF)),
+			ts.Or(ts.And(in(b, 0xF1, 0xF3), cont(i+1)),
+				ts.And(eq(b, 0xF4), at(i+1, 0x80, 0x8F))))
+		is[4][i] = ts.And(second4, ts.And(cont(i+2), cont(i+3)))
+	}
+	start := make([]*Term, n+1)
+	for i := range start {
+		start[i] = ts.False()
+	}
+	start[0] = ts.True()
+	count := ts.Const(64, 0)
+	for i := 0; i < n; i++ {
+		count = ts.Add(count, ts.Ite(start[i], ts.Const(64, 1), ts.Const(64, 0)))
+		multi := ts.Or(is[2][i], ts.Or(is[3][i], is[4][i]))
+		start[i+1] = ts.Or(start[i+1], ts.And(start[i], ts.BNot(multi)))
+		for k := 2; k <= 4; k++ {
+			if i+k <= n {
+				start[i+k] = ts.Or(start[i+k], ts.And(start[i], is[k][i]))
+			}
+		}
+	}
+	return count
+}
+
+// runeCount of a rope: uninterpreted chunks count as one rune per byte
+// (their content is taken to be ASCII where characters are counted; natively
+// they are materialised with an ASCII tag byte) and end the text of the byte
+// segment before them.
+func (ex *Exec) runeCount(s Str) *Term {
+	ts := ex.ts
+	total := ts.Const(64, 0)
+	for _, g := range s.Segs {
+		if g.opaque() {
+			total = ts.Add(total, g.Len)
+		} else {
+			total = ts.Add(total, ex.runeCountBytes(g.B))
+		}
+	}
+	return total
+}
+
+func initUtf8Stubs() {
+	namedIntrinsics["unicode/utf8.RuneCountInString"] = func(ex *Exec, fn *ssa.Function, args []Value, caller *Frame) Value {
+		return ex.runeCount(strArg(ex, args[0], "utf8.RuneCountInString"))
+	}
+	namedIntrinsics["unicode/utf8.RuneCount"] = func(ex *Exec, fn *ssa.Function, args []Value, caller *Frame) Value {
+		sl, _ := args[0].(Slice)
+		return ex.runeCount(ex.bytesToStr(sl))
+	}
 }
 
 // --------------------------------------------------------------------- base64
